@@ -931,7 +931,58 @@ impl<P: SizedPayload> St<P> {
     fn op_move(&mut self, i: usize, b: u8, c: u8) {
         self.facts.moves += 1;
         let n = self.slots.len();
-        match pick(b, 3) {
+        match pick(b, 5) {
+            3 | 4 => {
+                // Clone::clone_from (a provided trait method the handle types may override): slot i becomes
+                // another owner of slot j's allocation and gives up its own
+                let kind = self.slots[i].h.kind();
+                let start = pick(c, n);
+                let j = (0..n).map(|d| (start + d) % n).find(|&j| j != i && self.slots[j].h.kind() == kind);
+                let Some(j) = j else { return self.op_read(i) };
+                if !matches!(kind, Kind::Arc | Kind::Off | Kind::U1 | Kind::U2 | Kind::Dyn | Kind::Hs) {
+                    return self.op_read(i);
+                }
+                let (ai, aj) = (self.slots[i].alloc, self.slots[j].alloc);
+                let via_container = pick(b, 5) == 4;
+                let mut dst = self.take(i);
+                {
+                    let src = &self.slots[j].h;
+                    macro_rules! cf {
+                        ($d:expr, $s:expr) => {
+                            if via_container {
+                                let mut od = Some(unsafe { std::ptr::read($d) });
+                                let os = Some(unsafe { std::ptr::read($s) });
+                                lib!(od.clone_from(&os));
+                                std::mem::forget(os);
+                                unsafe { std::ptr::write($d, od.unwrap()) };
+                            } else {
+                                lib!($d.clone_from($s))
+                            }
+                        };
+                    }
+                    match (&mut dst, src) {
+                        (H::Arc(d), H::Arc(s)) => cf!(d, s),
+                        (H::Off(d), H::Off(s)) => cf!(d, s),
+                        (H::U1(d), H::U1(s)) => cf!(d, s),
+                        (H::U2(d), H::U2(s)) => cf!(d, s),
+                        (H::Dyn(d), H::Dyn(s)) => cf!(d, s),
+                        (H::Hs(d), H::Hs(s)) => cf!(d, s),
+                        _ => {}
+                    }
+                }
+                self.slots[i].h = dst;
+                self.slots[i].alloc = aj;
+                if ai != aj {
+                    self.allocs[aj].owners += 1;
+                    self.note_kind(aj, kind);
+                    self.released(ai, kind, false);
+                }
+                if kind != Kind::Arc {
+                    self.facts.clones_nonarc += 1;
+                }
+                let (oi, oj) = (self.allocs[ai].owners, self.allocs[aj].owners);
+                self.log(|| format!("clone_from{}: slot {} ({:?}, alloc #{}, owners now {}) <- slot {} (alloc #{}, owners now {})", if via_container { " (Option<_>)" } else { "" }, i, kind, ai, oi, j, aj, oj));
+            }
             0 => {
                 let j = pick(c, n);
                 self.slots.swap(i, j);
